@@ -13,6 +13,12 @@ CONSTANTS
   Ops = {"CtxRegister", "CtxDeregister", "CtxFinalize", "Dispatch", "CtxQuit", "ModRegister", "ModDeregister", "ModStart", "ModPause", "ModStop", "DropRef", "Tell"}
   CbOps = {"CtxDeregister", "CtxFinalize", "CtxQuit", "ModRegister", "ModDeregister", "ModStart"}
   EvalVals = {TRUE, FALSE}
+  Prios = {"N"}
+  BatchSizes = {}
+  UnstashNs = {}
+  HandlerIds = {}
+  Targets = {"A", "B"}
+  AutoVals = {TRUE, FALSE}
   Senders = {"A", "B"}
   QuitCodes = {0, 1}
   Setup = ""
